@@ -61,7 +61,11 @@ Fixpoint nf (fuel : nat) (q : nat) (s : sym) {struct fuel} : tree :=
     | Some (SNormal ts) =>
         match select ts s with
         | None => Leaf (source_return q s)
-        | Some t => body (fun q' => nf f q' s) q s t
+        | Some t =>
+            (* end() in an accepting state takes only a transition that lists End itself: the parse is complete, the
+               transition that rejects further bytes does not apply to the end of input *)
+            if is_end s && accepting d q && negb (has (t_on t) sym_end) then Leaf (source_return q s)
+            else body (fun q' => nf f q' s) q s t
         end
     | Some (SCond brs) => conds (fun q' => nf f q' s) q s brs
     end
